@@ -12,13 +12,15 @@ PROP = "C20"
 T = "gaussian_toolbox/experimental/truncated_measure.py"
 
 
-def make_trunc(I, base, cls="TruncatedGaussianMeasure"):
+def make_trunc(I, base, cls="TruncatedGaussianMeasure", degenerate=False):
     R = sym("R")
     if base == "pdf":
         u = build.pdf(I, R, D(1), "u")
     else:
         u = build.measure(I, R, D(1), "u", warm=(base == "warm"))
     a, b = nf.atom("a", [R, 1], owner="u"), nf.atom("b", [R, 1], owner="u")
+    if degenerate:
+        b = a         # the cdf difference cancels identically (the symbolic stand-in for an interval so far in the tail that it cancels in float64)
     t = I.construct(cls, dict(measure=u, lower_limit=a, upper_limit=b))
     return t, u, a, b
 
@@ -137,6 +139,70 @@ def closed_form_ob(base, key):
               f"{T}::TruncatedGaussianMeasure.integrate", group="closed-form")
 
 
+def power_ob(base, k):
+    """integrate('x**k', k=K) for a concrete K: the scan is unrolled; reference = raw-moment Stein recursion
+       m_0 = 1,  m_j = mu m_{j-1} + (j-1) sigma^2 m_{j-2} - sigma ((mu + sigma beta)^{j-1} phi(beta) - (mu + sigma alpha)^{j-1} phi(alpha)) / Z
+    (a different derivation than the library's binomial expansion of the standardised recursion)."""
+    def run():
+        nf.ST.generic_nonzero = True
+        I = build.new_interp()
+        t, u, a, b = make_trunc(I, base)
+        got = I.call_method(t, "integrate", ["x**k"], dict(k=k))
+        from .common import measure_reference
+        mu, Sig, mass = measure_reference(u, "pdf" if base == "pdf" else base)
+        mu1 = mu
+        S1 = Val(Sig.axes[:2], Sig.terms)
+        Lam = nf.inverse(Sig)[0]
+        L1 = Val(Lam.axes[:2], Lam.terms)
+        sl, sg = nf.elementwise("Sqrt", L1), nf.elementwise("Sqrt", S1)
+        al = nf.mul(nf.add(a, mu1, -1), sl)
+        be = nf.mul(nf.add(b, mu1, -1), sl)
+        Pa, Pb = nf.elementwise("Phi", al), nf.elementwise("Phi", be)
+        pa, pb = nf.elementwise("phi", al), nf.elementwise("phi", be)
+        Z = nf.add(Pb, Pa, -1)
+        rZ = nf.elementwise("Recip", Z)
+        xb, xa = nf.add(mu1, nf.mul(sg, be)), nf.add(mu1, nf.mul(sg, al))
+
+        def power(v, n):
+            out = nf.add(nf.scale(v, 0), nf.const(1))
+            for _ in range(n):
+                out = nf.mul(out, v)
+            return out
+        m = [nf.add(nf.scale(mu1, 0), nf.const(1))]
+        for j in range(1, k + 1):
+            bnd = nf.add(nf.mul(power(xb, j - 1), pb), nf.mul(power(xa, j - 1), pa), -1)
+            mj = nf.add(nf.mul(mu1, m[j - 1]), nf.scale(nf.mul(nf.mul(sg, bnd), rZ), -1))
+            if j >= 2:
+                mj = nf.add(mj, nf.scale(nf.mul(S1, m[j - 2]), j - 1))
+            m.append(mj)
+        ref = nf.mul(m[k], Z)
+        if mass is not None:
+            ref = nf.mul(nf.expand_dims(mass, ["k", None]), ref)
+        d = nf.diff(got, ref, what=f"integrate('x**k', k={k})")
+        if d and nf.zero_mod_recip(nf.add(got, ref, -1)):
+            d = []
+        return d, dict(funcs=funcs_of(I))
+    return Ob(f"power/{base}/k={k}", run,
+              "integrate('x**k', k) == mass * Z * m_k with the raw-moment recursion m_j = mu m_{j-1} + (j-1) sigma^2 m_{j-2} - sigma (x_b^{j-1} phi(beta) - x_a^{j-1} phi(alpha)) / Z "
+              "(lax.scan unrolled for the concrete k; misc.binom summarised by the binomial coefficient)",
+              f"{T}::TruncatedGaussianMeasure._get_moment", group="power")
+
+
+def zero_mass_ob(base, key, k=None):
+    """interval whose cdf difference is exactly zero (far tail / empty): every integral is zero - the zero-mass guard
+    `where(Z != 0, Z, 1)` may protect divisions but must never reach the mass itself."""
+    def run():
+        nf.ST.generic_nonzero = True
+        I = build.new_interp()
+        t, u, a, b = make_trunc(I, base, degenerate=True)
+        got = I.call_method(t, "integrate", [key], dict(k=k) if k is not None else {})
+        d = nf.diff(got, nf.scale(got, 0), what=f"integrate({key!r}) over an interval of zero mass")
+        return d, dict(funcs=funcs_of(I))
+    return Ob(f"zero-mass/{base}/{key}" + (f"/k={k}" if k is not None else ""), run,
+              "Phi(beta) - Phi(alpha) == 0 (far-tail / empty interval)  =>  integrate('1'|'x'|'x**2'|'x**k') == 0",
+              f"{T}::TruncatedGaussianMeasure.integral", group="zero-mass")
+
+
 def pdf_ob(base, via):
     def run():
         I = build.new_interp()
@@ -180,11 +246,19 @@ def obligations(tier):
             obs.append(pdf_ob(base, via))
         for key in ("1", "x", "x**2"):
             obs.append(closed_form_ob(base, key))
+    for base in ("cold", "pdf"):
+        for key, k in (("1", None), ("x", None), ("x**2", None), ("x**k", 0), ("x**k", 3)):
+            obs.append(zero_mass_ob(base, key, k))
+    for base in ("cold", "pdf"):
+        for k in range(0, 7):
+            if base == "pdf" and k > 4 and tier == "quick":
+                continue
+            obs.append(power_ob(base, k))
     return obs
 
 
-FLOORS = {"group:table": 1, "group:indicator": 6, "group:homogeneity": 6, "group:pdf": 6, "group:closed-form": 9}
+FLOORS = {"group:table": 1, "group:indicator": 6, "group:homogeneity": 6, "group:pdf": 6, "group:closed-form": 9, "group:power": 12, "group:zero-mass": 10}
 LEVEL = "other"
 EXPLANATION = ("Partial: dispatch table, support indicator, degree-one homogeneity of integrate('1'|'x'|'x**2') in the base mass and that the normalised variant evaluates the "
-               "NORMALISED base density, for finite generic limits. The cdf/pdf closed forms (numerical approximation in misc.normal_cdf), the x**k recursion (lax.scan), "
-               "infinite limits, tail accuracy and additivity over adjacent intervals are NOT decided.")
+               "NORMALISED base density, for finite generic limits; closed forms of the integrals of 1, x, x**2 in Phi / phi; integrate('x**k') for every k in 0..6 (lax.scan unrolled) "
+               "against the raw-moment Stein recursion. Tail accuracy of misc.normal_cdf, one-sided limits of the x**k recursion and numerical additivity are NOT decided.")
